@@ -2,11 +2,36 @@ from rtamt.syntax.ast.visitor.ltl.ast_visitor import LtlAstVisitor
 from rtamt.exception.exception import RTAMTException
 from rtamt.explanation.ltl.discrete_time.explanations import *
 
+from rtamt.syntax.node.ltl.always import Always
+from rtamt.syntax.node.ltl.historically import Historically
+from rtamt.syntax.node.ltl.conjunction import Conjunction
+from rtamt.syntax.node.ltl.eventually import Eventually
+from rtamt.syntax.node.ltl.once import Once
+from rtamt.syntax.node.ltl.disjunction import Disjunction
+from rtamt.syntax.node.ltl.implies import Implies
+
+
 class LTLExplainer(LtlAstVisitor):
+
+    # Inside an arithmetic term (and as an operand of iff / xor) a formula is a number:
+    # every sample it is computed from matters, not only a witness of its verdict.
+    # These are the polarities in which an operator is explained by all of its operands
+    # over the whole window.
+    ALL_OPERANDS = {Always: True, Historically: True, Conjunction: True,
+                    Eventually: False, Once: False, Disjunction: False, Implies: False}
 
     def __init__(self):
         super().__init__()
         self.explanations = dict()
+        self.in_term = 0
+
+    def term_args(self, element, args):
+        if self.in_term > 0 and type(element) in self.ALL_OPERANDS:
+            return [args[0], self.ALL_OPERANDS[type(element)]]
+        return args
+
+    def visit(self, element, args):
+        return super().visit(element, self.term_args(element, args))
 
     def explain(self, spec):
         self.spec = spec
@@ -20,8 +45,12 @@ class LTLExplainer(LtlAstVisitor):
     def visit_term_operand(self, element, intervals, flag):
         # the value of an arithmetic term has no polarity: a temporal operator
         # inside a term (x * (always y) > 0) is explained both ways
-        self.visit(element, [intervals, flag])
-        self.visit(element, [intervals, not flag])
+        self.in_term += 1
+        try:
+            self.visit(element, [intervals, flag])
+            self.visit(element, [intervals, not flag])
+        finally:
+            self.in_term -= 1
 
     def visitConstant(self, element, args):
         intervals = args[0]
@@ -243,10 +272,9 @@ class LTLExplainer(LtlAstVisitor):
             op1_intervals, op2_intervals = explain_unsat_iff(op1_signal, op2_signal, intervals)
         self.explanations[element.name] = intervals
 
-        # the verdict depends on both operands keeping their own verdicts, whichever they are
-        for polarity in (flag, not flag):
-            self.visit(element.children[0], [op1_intervals, polarity])
-            self.visit(element.children[1], [op2_intervals, polarity])
+        # the value -|a - b| (|a - b|) depends on the values of both operands
+        self.visit_term_operand(element.children[0], op1_intervals, flag)
+        self.visit_term_operand(element.children[1], op2_intervals, flag)
 
     def visitXor(self, element, args):
         intervals = args[0]
@@ -259,10 +287,9 @@ class LTLExplainer(LtlAstVisitor):
             op1_intervals, op2_intervals = explain_unsat_xor(op1_signal, op2_signal, intervals)
         self.explanations[element.name] = intervals
 
-        # the verdict depends on both operands keeping their own verdicts, whichever they are
-        for polarity in (flag, not flag):
-            self.visit(element.children[0], [op1_intervals, polarity])
-            self.visit(element.children[1], [op2_intervals, polarity])
+        # the value -|a - b| (|a - b|) depends on the values of both operands
+        self.visit_term_operand(element.children[0], op1_intervals, flag)
+        self.visit_term_operand(element.children[1], op2_intervals, flag)
 
     def visitEventually(self, element, args):
         intervals = args[0]
